@@ -27,6 +27,7 @@ func c11Extra(r *Run) {
 	})
 	c11ReadErrors(r)
 	c11MoreImports(r)
+	c11SelfClearingGuards(r)
 }
 
 // errorResultIndex returns the index of the (last) error result of a signature, or -1.
@@ -219,4 +220,116 @@ func c11CollectedIntoSlice(ev ssa.Value) bool {
 		}
 	}
 	return false
+}
+
+// c11SelfClearingGuards (C11.R7): an API write of a replica-set role must not be guarded by
+// "condition T of the reconciled replica set is True" when the same role unconditionally rewrites
+// condition T to False in the same invocation: after one failed attempt the guard is gone and the
+// write is never retried (edge-triggered instead of level-triggered). Expected instance count on a
+// correct tree is zero; the positive control controls/C11/R7__* keeps the rule honest.
+func c11SelfClearingGuards(r *Run) {
+	r.RuleDoc("C11.R7", "no API write is guarded by a persisted condition of the reconciled replica set that the same invocation resets (such a write would not be retried after a failure)")
+	apply := r.Prog.Method(pkgERS, "Reconciler", "applyStrategy")
+	if apply == nil {
+		r.Fatal("anchor (%s.Reconciler).applyStrategy not found", pkgERS)
+		return
+	}
+	ff := computeFacts(apply)
+	condUpdate := pkgERSCond + ".UpdateExtendedDaemonSetReplicaSetStatusCondition"
+	// per strategy call: condition types reset to False in a block that dominates the call
+	type roleCall struct {
+		call  *ssa.Call
+		reset map[string]bool
+	}
+	var roles []roleCall
+	for _, ci := range callsIn(apply) {
+		c, ok := ci.(*ssa.Call)
+		if !ok {
+			continue
+		}
+		cal := staticCallee(&c.Call)
+		if cal == nil || cal.Pkg == nil || cal.Pkg.Pkg.Path() != pkgStrategy {
+			continue
+		}
+		rc := roleCall{call: c, reset: map[string]bool{}}
+		for _, cj := range callsIn(apply) {
+			u, ok := cj.(*ssa.Call)
+			if !ok || calleeName(&u.Call) != condUpdate || len(u.Call.Args) < 4 {
+				continue
+			}
+			t, okT := constString(u.Call.Args[2])
+			st, okS := constString(u.Call.Args[3])
+			if !okT || !okS || st != "False" {
+				continue
+			}
+			if u.Block() == c.Block() && instrIndex(u) < instrIndex(c) || u.Block() != c.Block() && u.Block().Dominates(c.Block()) {
+				rc.reset[t] = true
+			}
+		}
+		roles = append(roles, rc)
+	}
+	_ = ff
+	n := 0
+	for _, rc := range roles {
+		if len(rc.reset) == 0 {
+			continue
+		}
+		strat := staticCallee(&rc.call.Call)
+		reach := r.Prog.reachableFuncs(strat)
+		writes := map[*ssa.Function]bool{}
+		for _, e := range effectsOf(reach) {
+			if isWriteVerb(e.Verb) {
+				writes[e.Fn] = true
+			}
+		}
+		// functions from which a write is reachable
+		canWrite := func(fn *ssa.Function) bool {
+			for f := range r.Prog.reachableFuncs(fn) {
+				if writes[f] {
+					return true
+				}
+			}
+			return false
+		}
+		for _, fn := range sortedFuncs(reach) {
+			var f2 *FuncFacts
+			for _, ci := range callsIn(fn) {
+				isW := false
+				if e := clientEffect(fn, ci); e != nil && isWriteVerb(e.Verb) {
+					isW = true
+				} else if cal := staticCallee(ci.Common()); cal != nil && r.Prog.IsRuleSite(cal) && canWrite(cal) {
+					isW = true
+				}
+				if !isW {
+					continue
+				}
+				if f2 == nil {
+					f2 = computeFacts(fn)
+				}
+				for _, f := range f2.At(ci.Block()) {
+					if !f.Pol {
+						continue
+					}
+					c, ok := f.V.(*ssa.Call)
+					if !ok || calleeName(&c.Call) != pkgERSCond+".IsConditionTrue" || len(c.Call.Args) != 2 {
+						continue
+					}
+					t, okT := constString(c.Call.Args[1])
+					if !okT || !rc.reset[t] {
+						continue
+					}
+					if !hasPathSuffix(c.Call.Args[0], "Replicaset", "Status") {
+						continue
+					}
+					n++
+					r.Check("C11.R7", "write guarded by self-cleared condition "+t, r.Prog.Pos(ci.Pos()), shortFunc(fn),
+						"an API write is not guarded by a condition of the reconciled replica set that this role resets in the same invocation", false,
+						fmt.Sprintf("guard IsConditionTrue(Replicaset.Status, %q) — the same reconcile writes %s=False before calling %s, so a failed attempt is never retried", t, t, shortFunc(strat)))
+				}
+			}
+		}
+	}
+	o := r.Check("C11.R7", "self-clearing guards", r.Prog.Pos(apply.Pos()), shortFunc(apply),
+		"no write of any role is guarded by a condition that role resets", true, fmt.Sprintf("%d role dispatches examined, %d offending guards", len(roles), n))
+	o.Trivial = true
 }
